@@ -572,6 +572,9 @@ def far_fixed(rng, case, pattern=None, neg=False):
         nets.insert(rng.randrange(len(nets) + 1), {"mods": pins, "w": float(rng.choice([1, 1, 2, 0.5]))})
         k, j = k + 1, j + 1
     if neg:
+        if not any(m["kind"] == "termfixed" for m in mods):       # only fixed modules were added: the last one becomes a pad
+            q = mods[-1]
+            mods[-1] = {"name": q["name"], "kind": "termfixed", "center": list(q["rects"][0][:2])}
         t = rng.choice([m for m in mods if m["kind"] == "termfixed"])
         t["center"][rng.randrange(2)] = far_coord(rng, W, "neg")
     return dict(case, mods=mods, nets=nets, far=pattern + ("/neg" if neg else ""))
